@@ -822,8 +822,9 @@ def run(chk, replay=None):
             def pred(cc, li, lm, crash):
                 return compare(cc, li, lm, crash) is not None
             small = shrink(c, pred)
-            what.append("correspondence C09_Model vs EPollPoller/PollPoller/Channel broken at op %d of the case below (%s); the property "
-                        "oracle holds on all %d cases (%d cases differ)" % (idx, msg, len(cases), len(corr_bad)))
+            what.append("correspondence C09_Model vs EPollPoller/PollPoller/Channel broken at op %d of the case below (%s); %d of %d "
+                        "cases differ%s" % (idx, msg, len(corr_bad), len(cases),
+                                            "" if oracle_bad else "; the property oracle holds on every case"))
             body = small.text()
         p = chk.write_replay("broken_obligation.txt", "\n".join("# " + w for w in what) + "\n" + body +
                              ("\n--- coq log tail ---\n" + pr["log"][-3000:] if not pr["ok"] else ""))
